@@ -419,4 +419,31 @@ theorem gnwr_off_retarget_mainnet (p : Params) (lst : Node) (m : Node) (anc : Li
   unfold getNextWorkRequired
   simp [hh, hnet]
 
+/-- The block weight computed by BuildTxListExt is BIP141's: 3 × (size without witness data) + (total size),
+    where both sizes count the 80-byte header, the transaction count and every transaction. -/
+theorem weight_formula (txs : List Tx) :
+    blockWeight txs =
+      3 * (80 + CompactSize.vlenSize txs.length + (txs.map (·.noWitSize)).sum) +
+          (80 + CompactSize.vlenSize txs.length + (txs.map (·.size)).sum) := by
+  unfold blockWeight
+  rw [Proofs.C05.sum_weight]
+  omega
+
+/-- The commitment output used by PostCheckBlock is the LAST output of the coinbase that is at least 38 bytes
+    long and starts with 6a24aa21a9ed (BIP141: "the one with the highest output index"). -/
+theorem commitment_is_last_matching (outs : List Bytes) (pk : Bytes) (h : findCommitment outs.reverse = some pk) :
+    ∃ pre suf, outs = pre ++ pk :: suf ∧ witnessCommitMinLen ≤ pk.length ∧ pk.take witnessHeader.length = witnessHeader ∧
+      ∀ y ∈ suf, ¬ (witnessCommitMinLen ≤ y.length ∧ y.take witnessHeader.length = witnessHeader) := by
+  unfold findCommitment at h
+  obtain ⟨pre, suf, hl, hp, hno⟩ := Proofs.C05.find_reverse_last _ outs pk h
+  simp only [Bool.and_eq_true, decide_eq_true_eq, beq_iff_eq] at hp
+  refine ⟨pre, suf, hl, hp.1, hp.2, ?_⟩
+  intro y hy hc
+  have := hno y hy
+  simp [hc.1, hc.2] at this
+
+/-- non-vacuity of `commitment_is_last_matching` -/
+example : findCommitment ([[1], 0x6a :: 0x24 :: 0xaa :: 0x21 :: 0xa9 :: 0xed :: List.replicate 32 7, [2]] : List Bytes).reverse
+    = some (0x6a :: 0x24 :: 0xaa :: 0x21 :: 0xa9 :: 0xed :: List.replicate 32 7) := by decide
+
 end GocoinV.Props.C05
